@@ -25,12 +25,13 @@ struct Scn {
     int n_pre = 0, n_after = 0;      // tagged pairs before / in the payload
     std::vector<size_t> qcuts, scuts; // cut positions in (pre_req+head+pay) and (pre_res+res_head+res_pay)
     int early_req_calls = 0;         // request calls attempted before any response byte (must consume 0)
+    int lead = 0;                    // blanks in front of the first tunnelled HTTP request (the probe skips leading whitespace, as IIS does)
     bool expect_tunnel = false;
 };
 
 static std::string scn_text(const Scn &s) {
     auto H = [](const std::string &x) { return x.empty() ? std::string("-") : vc::hex(x); };
-    std::string t = "c16 " + std::to_string(s.pers) + " " + std::to_string(s.auto_destroy) + " " + std::to_string(s.kind) + " " + std::to_string(s.status) + " " + std::to_string(s.res_body) + " " + std::to_string(s.payload) + " " + std::to_string(s.n_pre) + " " + std::to_string(s.n_after) + " " + std::to_string(s.early_req_calls) + " " + std::to_string(s.expect_tunnel) + "\n";
+    std::string t = "c16 " + std::to_string(s.pers) + " " + std::to_string(s.auto_destroy) + " " + std::to_string(s.kind) + " " + std::to_string(s.status) + " " + std::to_string(s.res_body) + " " + std::to_string(s.payload) + " " + std::to_string(s.n_pre) + " " + std::to_string(s.n_after) + " " + std::to_string(s.early_req_calls) + " " + std::to_string(s.expect_tunnel) + " " + std::to_string(s.lead) + "\n";
     t += "prereq " + H(s.pre_req) + "\npreres " + H(s.pre_res) + "\nhead " + H(s.head) + "\npay " + H(s.pay) + "\nreshead " + H(s.res_head) + "\nrespay " + H(s.res_pay) + "\nqcuts";
     for (size_t c : s.qcuts) t += " " + std::to_string(c); t += "\nscuts"; for (size_t c : s.scuts) t += " " + std::to_string(c);
     t += "\n# req \"" + vc::esc(s.pre_req + s.head + s.pay, 600) + "\"\n# res \"" + vc::esc(s.pre_res + s.res_head + s.res_pay, 600) + "\"\n";
@@ -106,7 +107,7 @@ static std::pair<std::string, std::string> run_scn(const Scn &s) {
     // (a response chunk may reach beyond the CONNECT response into the answers to payload requests: those requests are put on the wire first)
     auto need_for_next_res_chunk = [&]() -> size_t { if (s.expect_tunnel || si >= sch.size() || soff + sch[si].size() <= res_head_end) return 0; size_t rel_end = soff + sch[si].size() - res_head_end; int k = -1;
         for (int i = 0; i < s.n_after; i++) { size_t st = s.res_pay.find("HTTP/1.1 200 OK\r\nX-Pair: a" + std::to_string(i) + "z"); if (st != std::string::npos && st < rel_end) k = i; }
-        size_t need = head_end; for (int i = 0; i <= k; i++) need += pair_req_len(i); return need; };
+        size_t need = head_end + (k >= 0 ? (size_t)s.lead : 0); for (int i = 0; i <= k; i++) need += pair_req_len(i); return need; };
     while (si < sch.size() && soff < res_head_end) { size_t need = need_for_next_res_chunk(); while (qoff < need && qi < qch.size()) do_req(false); do_res(false); if (!qpend.empty()) do_req(true); if (!spend.empty()) do_res(true); }
     // phase C: the rest; server-side bytes beyond the response only once TUNNEL has been seen (or when HTTP traffic is expected)
     int guard = 0;
@@ -118,7 +119,7 @@ static std::pair<std::string, std::string> run_scn(const Scn &s) {
             // legal interleaving: no byte of the response to payload request a_k is offered before every byte of that request was offered to the parser at least once
             size_t rel_end = soff + sch[si].size() - res_head_end; int k = -1; // the last pair whose response has any byte in this chunk
             for (int i = 0; i < s.n_after; i++) { size_t st = s.res_pay.find("HTTP/1.1 200 OK\r\nX-Pair: a" + std::to_string(i) + "z"); if (st != std::string::npos && st < rel_end) k = i; }
-            size_t need = head_end; for (int i = 0; i <= k; i++) need += pair_req_len(i);
+            size_t need = head_end + (k >= 0 ? (size_t)s.lead : 0); for (int i = 0; i <= k; i++) need += pair_req_len(i);
             if (qoff < need && qi < qch.size()) res_allowed = false; // offered (on the wire), not necessarily consumed yet: the parser may still hold the request side back with DATA_OTHER
         }
         if (res_allowed && (si < sch.size() || !spend.empty())) progressed |= do_res(false);
@@ -177,7 +178,7 @@ static Scn gen_scn() {
         s.res_head = "HTTP/1.1 " + std::to_string(s.status) + " X\r\nX-Pair: cxz\r\n" + (s.status == 101 ? "Upgrade: websocket\r\nConnection: Upgrade\r\n\r\n" : "Content-Length: 0\r\n\r\n");
         s.payload = s.status == 101 ? rcx::range(1, 3) : (rcx::coin() ? 0 : 3);
     }
-    if (s.payload == 0) { s.n_after = rcx::range(1, 3); for (int i = 0; i < s.n_after; i++) { s.pay += pair_req("a" + std::to_string(i)); s.res_pay += pair_res("a" + std::to_string(i), rcx::range(0, 4)); } }
+    if (s.payload == 0) { s.n_after = rcx::range(1, 3); if (s.kind == 0 && s.status >= 200 && s.status <= 299 && rcx::chance(1, 4)) { s.lead = rcx::range(1, 3); for (int i = 0; i < s.lead; i++) s.pay += rcx::coin() ? ' ' : '\t'; } for (int i = 0; i < s.n_after; i++) { s.pay += pair_req("a" + std::to_string(i)); s.res_pay += pair_res("a" + std::to_string(i), rcx::range(0, 4)); } }
     else if (s.payload == 1) { s.pay = std::string("\x16\x03\x01\x00\xa5\x01\x00\x00\xa1\x03\x03", 11); int n = rcx::range(10, 120); for (int i = 0; i < n; i++) s.pay += (char)rcx::range(0, 255); s.pay += '\n'; s.res_pay = std::string("\x16\x03\x03\x00\x31\x02\x00\x00", 8); int m = rcx::range(0, 60); for (int i = 0; i < m; i++) s.res_pay += (char)rcx::range(0, 255); }
     else if (s.payload == 2) { int n = rcx::range(1, 40); for (int i = 0; i < n; i++) { char ch = (char)rcx::range(0x80, 0xff); s.pay += ch; } s.pay += rcx::coin() ? '\n' : '\0'; int m = rcx::range(0, 100); for (int i = 0; i < m; i++) s.pay += (char)rcx::range(0, 255); s.res_pay = "SSH-2.0-x\r\n"; }
     else if (s.payload == 4) { // binary payload that carries neither LF nor NUL: shorter than, around, or beyond the hard field limit (18000 by default)
@@ -209,7 +210,7 @@ static void campaign() {
         auto r = run_scn(s);
         if (!rcx::shrinking()) {
             g_stats.evaluations++; g_stats.cls(s.kind == 0 ? "connect" : "upgrade"); g_stats.cls("status_" + std::to_string(s.status)); g_stats.cls(s.expect_tunnel ? "expect_tunnel" : "expect_http_resumes");
-            static const char *PN[] = {"payload_http", "payload_tls_like", "payload_random", "payload_none", "payload_without_lf_or_nul"}; g_stats.cls(PN[s.payload]);
+            static const char *PN[] = {"payload_http", "payload_tls_like", "payload_random", "payload_none", "payload_without_lf_or_nul"}; g_stats.cls(PN[s.payload]); if (s.lead) g_stats.cls("tunnelled_http_with_leading_blanks");
             size_t he = s.pre_req.size() + s.head.size(); bool same_chunk = !s.pay.empty() && std::find(s.qcuts.begin(), s.qcuts.end(), he) == s.qcuts.end(); bool near = false; for (size_t c : s.qcuts) if (c + 4 >= he && c < he) near = true;
             if (same_chunk) g_stats.cls("payload_in_same_chunk_as_connect_head"); if (near) g_stats.cls("cut_within_last_4_bytes_of_head");
             if (same_chunk || near) g_stats.nt(vc::fnv1a(text));
@@ -226,7 +227,7 @@ static int replay(const std::string &path) {
     while (p < f.size()) {
         size_t e = f.find('\n', p); if (e == std::string::npos) e = f.size(); std::string l = f.substr(p, e - p); p = e + 1;
         auto nums = [&](const char *c, std::vector<size_t> &v) { char *end; for (;;) { long n = strtol(c, &end, 10); if (end == c) break; v.push_back((size_t)n); c = end; } };
-        if (l.rfind("c16 ", 0) == 0) { int rb, et; sscanf(l.c_str() + 4, "%d %d %d %d %d %d %d %d %d %d", &s.pers, &s.auto_destroy, &s.kind, &s.status, &rb, &s.payload, &s.n_pre, &s.n_after, &s.early_req_calls, &et); s.res_body = rb; s.expect_tunnel = et; }
+        if (l.rfind("c16 ", 0) == 0) { int rb, et; sscanf(l.c_str() + 4, "%d %d %d %d %d %d %d %d %d %d %d", &s.pers, &s.auto_destroy, &s.kind, &s.status, &rb, &s.payload, &s.n_pre, &s.n_after, &s.early_req_calls, &et, &s.lead); s.res_body = rb; s.expect_tunnel = et; }
         else if (l.rfind("prereq ", 0) == 0) s.pre_req = U(l.substr(7)); else if (l.rfind("preres ", 0) == 0) s.pre_res = U(l.substr(7)); else if (l.rfind("head ", 0) == 0) s.head = U(l.substr(5)); else if (l.rfind("pay ", 0) == 0) s.pay = U(l.substr(4));
         else if (l.rfind("reshead ", 0) == 0) s.res_head = U(l.substr(8)); else if (l.rfind("respay ", 0) == 0) s.res_pay = U(l.substr(7)); else if (l.rfind("qcuts", 0) == 0) nums(l.c_str() + 5, s.qcuts); else if (l.rfind("scuts", 0) == 0) nums(l.c_str() + 5, s.scuts);
     }
